@@ -64,6 +64,15 @@ theorem pop_norm (o : Ops) (s : MSt) (el : Str) : normSt (pop o (normSt s) el) =
             · simp
             · simp
 
+/-- …and so does the value it returns -/
+theorem popValue_norm (o : Ops) (s : MSt) (el : Str) : popValue o (normSt s) el = popValue o s el := by
+  unfold popValue
+  cases hs : s.stack with
+  | nil => simp [normSt, hs]
+  | cons top rest =>
+    have hn : (normE top).name = top.name := rfl
+    simp only [normSt, hs, List.map_cons, hn, normE_flatten]
+
 theorem handleData_norm (s : MSt) (t : Str) : normSt (handleData (normSt s) t) = normSt (handleData s t) := by
   unfold handleData
   cases hs : s.stack with
@@ -102,13 +111,23 @@ theorem step_norm (o : Ops) (s : MSt) (e : MEv) : (mstep o (normSt s) e).norm = 
         rw [normSt_eq_iff]
         exact ⟨by simp only [this.1], this.2⟩
       · simp only [c2, Bool.false_eq_true, ↓reduceIte]
-        by_cases c3 : hasEnd (handlerName s.c tag) = true
-        · simp only [c3, ↓reduceIte]
-        · simp only [c3, Bool.false_eq_true, ↓reduceIte, Outcome.norm]
+        cases hdk : dateKey (handlerName s.c tag) with
+        | some kp =>
+          -- a simple date element: the popped value and the pop itself only see the joined text
+          simp only [Outcome.norm, popValue_norm]
           congr 1
-          have := (normSt_eq_iff _ _).mp (hpop (handlerName s.c tag))
+          have := (normSt_eq_iff _ _).mp (hpop kp.1)
           rw [normSt_eq_iff]
           exact ⟨by simp only [this.1], this.2⟩
+        | none =>
+          simp only
+          by_cases c3 : hasEnd (handlerName s.c tag) = true
+          · simp only [c3, ↓reduceIte]
+          · simp only [c3, Bool.false_eq_true, ↓reduceIte, Outcome.norm]
+            congr 1
+            have := (normSt_eq_iff _ _).mp (hpop (handlerName s.c tag))
+            rw [normSt_eq_iff]
+            exact ⟨by simp only [this.1], this.2⟩
   | data t => simp only [mstep, Outcome.norm, handleData_norm]
   | ns p u => simp [mstep, Outcome.norm, normSt]
 
